@@ -164,6 +164,30 @@ func genUntrusted(tier string, seed uint64) {
 			emitU("cbor", append([]byte{0x9f, 0x81}, h...))
 		}
 	}
+	// a non-empty earlier hunk of an indefinite string, then a hunk declaring an adversarial length (sums that wrap)
+	for _, ln := range []uint64{1 << 25, 1<<25 + 1, 1 << 31, 1 << 62, 1<<63 - 2, 1<<63 - 1, 1 << 63, 1<<64 - 2, 1<<64 - 1} {
+		for _, t := range targets {
+			emit("untrusted cbor 1 %d %s", tid(t), hexOrDash(append([]byte{0x7f, 0x61, 0x41}, headBytes(0x60, ln, 0)...)))
+			emit("untrusted cbor 1 %d %s", tid(t), hexOrDash(append(append([]byte{0x5f, 0x42, 0x00, 0x01}, headBytes(0x40, ln, 0)...), 0x07, 0xff)))
+		}
+		emitU("cbor", append([]byte{0x81, 0x7f, 0x62, 0x41, 0x42, 0x60}, headBytes(0x60, ln, 0)...))
+		emitU("cbor", append([]byte{0xa1, 0x61, 0x6b, 0x5f, 0x41, 0x09}, headBytes(0x40, ln, 0)...))
+	}
+	// containers that declare far more entries than the input holds, nested: allocation must follow the input, not the claims
+	for _, d := range []int{1, 2, 16, 256} {
+		for _, h := range [][]byte{{0x99, 0xff, 0xff}, {0xb9, 0xff, 0xff}, {0x9a, 0x00, 0x00, 0xff, 0xff}, {0x9b, 0, 0, 0, 0, 0, 0, 0xff, 0xff}, {0x98, 0xff}} {
+			item := bytes.Repeat(h, d)
+			if h[0] == 0xb9 {
+				item = bytes.Repeat(append(append([]byte{}, h...), 0x61, 0x6b), d)
+			}
+			for _, t := range targets {
+				k := t.Kind()
+				if k == reflect.Interface || k == reflect.Slice || k == reflect.Map || d == 1 {
+					emit("untrusted cbor 1 %d %s", tid(t), hexOrDash(item))
+				}
+			}
+		}
+	}
 	// deep nesting
 	for _, d := range []int{1000, 20000} {
 		emitU("cbor", bytes.Repeat([]byte{0x81}, d))
